@@ -35,12 +35,15 @@ type c03Op struct {
 }
 
 type c03Case struct {
-	Kind    string    `json:"kind"`               // lookup | predicate
-	Matcher bool      `json:"matcher,omitempty"`  // predicate: use the shipped StringPredicateMatcher (single key per partition)
-	CaseIns bool      `json:"case_ins,omitempty"` // matcher: its case-insensitive mode
-	Limit   int       `json:"limit"`
-	Parts   []c03Part `json:"parts"`
-	Ops     []c03Op   `json:"ops"`
+	Kind    string `json:"kind"`               // lookup | predicate
+	Matcher bool   `json:"matcher,omitempty"`  // predicate: use the shipped StringPredicateMatcher (single key per partition)
+	CaseIns bool   `json:"case_ins,omitempty"` // matcher: its case-insensitive mode
+	// lookup: the function handed to the constructor: 0 = nil (the library's default), 1 = the exported
+	// matchers.DefaultStringLookupFunc, 2 = a caller-written function of the same meaning
+	LookupFn int       `json:"lookup_fn,omitempty"`
+	Limit    int       `json:"limit"`
+	Parts    []c03Part `json:"parts"`
+	Ops      []c03Op   `json:"ops"`
 }
 
 var c03Keys = []string{"a", "b", "c", "d", "e", "zz", "", "A", "Batch", "batch"}
@@ -77,6 +80,9 @@ func genFrac() *rapid.Generator[float64] {
 func genC03(t *rapid.T) c03Case {
 	c := c03Case{Kind: rapid.SampledFrom([]string{"lookup", "predicate"}).Draw(t, "kind")}
 	c.Limit = rapid.OneOf(rapid.IntRange(1, 4), rapid.IntRange(1, 8), rapid.IntRange(1, 64)).Draw(t, "limit")
+	if c.Kind == "lookup" {
+		c.LookupFn = rapid.IntRange(0, 2).Draw(t, "lookupFn")
+	}
 	if c.Kind == "predicate" {
 		c.Matcher = rapid.IntRange(0, 3).Draw(t, "matcher") == 0
 		c.CaseIns = c.Matcher && rapid.Bool().Draw(t, "caseIns")
@@ -258,7 +264,17 @@ func runC03(_ *testing.T, c c03Case) (out kit.Outcome) {
 			bins = append(bins, b)
 			m[p.Name] = b.lookup
 		}
-		ls, err = strategy.NewLookupPartitionStrategyWithMetricRegistry(m, nil, int32(c.Limit), reg)
+		var lf func(context.Context) string
+		switch c.LookupFn {
+		case 1:
+			lf = matchers.DefaultStringLookupFunc
+		case 2:
+			lf = func(ctx context.Context) string {
+				v, _ := ctx.Value(matchers.LookupPartitionContextKey).(string)
+				return v
+			}
+		}
+		ls, err = strategy.NewLookupPartitionStrategyWithMetricRegistry(m, lf, int32(c.Limit), reg)
 	} else {
 		var l []*strategy.PredicatePartition
 		for _, p := range c.Parts {
